@@ -264,4 +264,90 @@ theorem copyCells_frame (s0 : State) : ∀ (l : List Nat) (acc : List Nat × Sta
       have hyb : y ≠ acc.2.nextCell := by omega
       have f := ap_copyTo_frame { acc.2 with nextCell := acc.2.nextCell + 1 } a acc.2.nextCell y hyb
       rw [f.1, f.2]; exact h y hy
+
+theorem step_newCell_frame {s s' : PtrCell.State} {t : Nat} (h : PtrCell.step s (.newCell t) = some s') :
+    ∀ x, x ≠ t → s'.kind.get x = s.kind.get x ∧ s'.val.get x = s.val.get x := by
+  simp only [PtrCell.step] at h
+  split at h
+  · cases h; intro x hx; simp [Mem.get_set, hx]
+  · cases h
+
+theorem setData_val (w : PtrCell.State) (a b : Nat) :
+    (PtrCell.setData w a b).val = w.val.set b (w.val.get a) := by
+  unfold PtrCell.setData
+  simp only []
+  split <;> rfl
+
+theorem clearW_frame (s : PtrCell.State) (b x : Nat) (hx : x ≠ b) :
+    (PtrCell.writeNone (PtrCell.clearInternal s b) b).kind.get x = s.kind.get x ∧
+    (PtrCell.writeNone (PtrCell.clearInternal s b) b).val.get x = s.val.get x := by
+  unfold PtrCell.writeNone PtrCell.clearInternal PtrCell.holderRemove
+  split <;> simp [Mem.get_set, hx]
+
+/-- `*b = *a`: `b` has the kind and value of `a`, nothing else changes kind or value -/
+theorem step_assign_copy {s s' : PtrCell.State} {a b : Nat} (h : PtrCell.step s (.assign a b) = some s') :
+    s'.kind.get b = s.kind.get a ∧ s'.val.get b = s.val.get a ∧
+    (∀ x, x ≠ b → s'.kind.get x = s.kind.get x ∧ s'.val.get x = s.val.get x) := by
+  simp only [PtrCell.step] at h
+  split at h
+  · rename_i g
+    cases h
+    have hab : a ≠ b := g.2.2
+    rw [setData_kind, setData_val, (clearW_frame s b a hab).1, (clearW_frame s b a hab).2]
+    refine ⟨by simp, by simp, fun x hx => ?_⟩
+    simp only [Mem.get_set, hx, if_false]
+    exact clearW_frame s b x hx
+  · cases h
+
+theorem step_destroy_frame {s s' : PtrCell.State} {t : Nat} (h : PtrCell.step s (.destroy t) = some s') :
+    ∀ x, x ≠ t → s'.kind.get x = s.kind.get x ∧ s'.val.get x = s.val.get x := by
+  simp only [PtrCell.step] at h
+  split at h
+  · cases h
+    intro x hx
+    simp only [Mem.get_set, hx, if_false]
+    unfold PtrCell.clearInternal PtrCell.holderRemove; split <;> simp
+  · cases h
+
+/-- `c.Clear()` touches no other variable -/
+theorem setNil_frame {s : State} {c : Nat} (h : (setNil s c).stuck = false) (x : Nat) (hc : x ≠ c) (hn : x ≠ s.nextCell) :
+    (setNil s c).cells.kind.get x = s.cells.kind.get x ∧ (setNil s c).cells.val.get x = s.cells.val.get x := by
+  unfold setNil at h ⊢
+  obtain ⟨h2, c3, e3, r3⟩ := ap_ok h
+  obtain ⟨h1, c2, e2, r2⟩ := ap_ok h2
+  obtain ⟨_, c1, e1, r1⟩ := ap_ok h1
+  rw [r3]; rw [r2] at e3; rw [r1] at e2
+  simp only at e1 e2 e3 ⊢
+  have n1 := step_newCell_frame e1 x hn
+  have n2 := (step_assign_copy e2).2.2 x hc
+  have n3 := step_destroy_frame e3 x hn
+  exact ⟨by rw [n3.1, n2.1, n1.1], by rw [n3.2, n2.2, n1.2]⟩
+
+/-- **`end <pending result>` inside the call.**  The started thread ends while only the host's `returnValue`
+    (`r`) and the VM's `m_ReturnValue` (`a`) share its result cell, with a value that is itself a pending
+    result (kind Pointer, the result cell of a helper that still waits): afterwards `returnValue` *is* that
+    pending result — not None, so `Execute(Event&)` appends it to the record, and (`C05_result_reaches_every_sharer`)
+    it receives the helper's value when the helper ends. -/
+theorem endFrom_pending_two {s : State} {a tmp r : Nat} (hp : isPtr s.cells a = true)
+    (hk : s.cells.kind.get tmp = 2) (hl : listOf s.cells (s.cells.val.get a) = [r, a])
+    (hra : r ≠ a) (hrt : r ≠ tmp) (hrn : r ≠ s.nextCell) (hns : (endFrom s a tmp).stuck = false) :
+    (endFrom s a tmp).cells.kind.get r = 2 ∧ (endFrom s a tmp).cells.val.get r = s.cells.val.get tmp := by
+  have hra' : (r != a) = true := by simpa using hra
+  have hrt' : (r == tmp) = false := by simpa using hrt
+  unfold endFrom at hns ⊢
+  simp only [hp, hk, hl, Bool.not_true, Bool.false_eq_true, if_false, List.length_cons, List.length_nil,
+    List.contains_cons, List.contains_nil, beq_self_eq_true, Bool.or_false, Bool.or_true, Bool.and_true,
+    if_true, List.filter_cons, hra', bne_self_eq_false, List.filter_nil,
+    List.reverse_cons, List.reverse_nil, List.nil_append, List.foldl_cons, List.foldl_nil, hrt'] at hns ⊢
+  simp only [show ((2 : Nat) == 0) = false from rfl, show ((2 : Nat) == 1) = false from rfl, Bool.false_eq_true, if_false,
+    show (0 + 1 + 1 == 2) = true from rfl, if_true] at hns ⊢
+  have h1 : (ap s (.assign tmp r)).stuck = false := by
+    cases h : (ap s (.assign tmp r)).stuck with
+    | false => rfl
+    | true => rw [setNil_stuck_mono _ _ h] at hns; cases hns
+  obtain ⟨_, c1, e1, r1⟩ := ap_ok h1
+  have f := setNil_frame hns r hra (by rw [(ap_frame _ _).2.1]; exact hrn)
+  rw [f.1, f.2, r1]
+  have a1 := step_assign_copy e1
+  exact ⟨by simp only []; rw [a1.1, hk], by simp only []; rw [a1.2.1]⟩
 end Morfuse.CallRec
